@@ -520,6 +520,10 @@ def b_keys(eng, n, st):
     v = eng.ev(n.args[0], st)
     if isinstance(v.ty, OrdDictT):
         return Val(v.ty.keys(v.t), v.ty.kl)
+    if isinstance(v.ty, DictT) and getattr(eng, "in_ghost", False):
+        # ghost code may name an enumeration of a plain dict's keys (distinct, exactly the members, as long as len(d))
+        seq, _pos = key_order(eng, v.ty.has(v.t), v.ty.k, st)
+        return seq
     raise Unsupported("keys() of %s" % v.ty)
 
 
